@@ -3,6 +3,7 @@ import TinsModel.Wire.Chain.FixTransport
 import TinsModel.Wire.Chain.FixL2
 import TinsModel.Wire.Chain.FixIp6
 import TinsModel.Wire.Chain.FixIcmp
+import TinsModel.Wire.Chain.FixApp
 /-
   Second-serialization fixed point, part 3: **the one-layer step for every covered class** (`fix_all`) over the interface the
   registry uses.
@@ -25,13 +26,14 @@ def FixCov : AnyObj → Prop
   | .l2 _ => True
   | .ip6 _ => True
   | .icmp _ => True
+  | .app _ => True
   | .ip _ => True
   | .tr _ => True
   | _ => False
 
 /-- **the one-layer step of the second-serialization fixed point, every covered class** -/
 theorem fix_all (ps ps' : List LayerInfo) (x : AnyObj) (os os' : List AnyObj) (hok : LayerOK x os) (hcov : FixCov x)
-    (hna : NoApp x) (_hpay : (splitRaw (x :: os)).2 ≠ [])
+    (hna : NoApp x) (hpay : (splitRaw (x :: os)).2 ≠ [])
     (region io : Bytes)
     (hlen : region.length = x.hdr + sizeOfStack os + x.trl (sizeOfStack os))
     (hio : (region.drop x.hdr).take (sizeOfStack os) = io) (hiol : io.length = sizeOfStack os)
@@ -169,7 +171,56 @@ theorem fix_all (ps ps' : List LayerInfo) (x : AnyObj) (os os' : List AnyObj) (h
       exact fix_of_simple (.icmp (.icmp6 p)) x' os os' _ region io out 0 ht hlen hio hsz
         (icmp6_fix (cxOf ps os) (cxOf ps' os') p hinv hser hsm hext region (by omega) (by rw [hio']; exact hbw)
           (by rw [hio']; exact how) (by rw [hio']; exact hg) out hw x' inner hp hsim hisz)
-  | app o => exact hcov.elim
+  | app o =>
+    cases o with
+    | arp a =>
+      have hname : n = "ARP" := by rcases hn with h | h; exact h; exact h.elim
+      subst hname
+      have he2' : e2 = 0 ∨ e2 = k := by
+        rcases he2 with h | ⟨h, _⟩
+        · exact .inl h
+        · right; rw [h]; show 0 + k = k; omega
+      have hlen0 : region.length = 28 + sizeOfStack os := hlen
+      have hio' : region.drop 28 = io := by rw [← hio]; exact (take_drop_fullA region 28 _ hlen0).symm
+      exact arp_fix (cxOf ps os) (cxOf ps' os') a hinv os os' region io hlen0 hio' out hw k x' inner hp e2 he2' hsz
+    | vxlan v =>
+      have hname : n = "VXLAN" := by rcases hn with h | h; exact h; exact h.elim
+      subst hname
+      have hk0 : k = 0 := k_zero_of_not_padOK hk (fun h => h) rfl
+      subst hk0
+      have he0 : e2 = 0 := by
+        rcases he2 with h | ⟨h, _⟩
+        · exact h
+        · exact h
+      subst he0
+      rw [List.replicate_zero, List.append_nil] at hp
+      have hlen0 : region.length = 8 + sizeOfStack os := hlen
+      exact fix_of_simple _ x' os os' _ region io out 0 rfl hlen hio hsz
+        (vxlan_fix (cxOf ps os) (cxOf ps' os') v hinv region (by omega) out hw x' inner hp)
+    | rtp t =>
+      have hname : n = "RTP" := by rcases hn with h | h; exact h; exact h.elim
+      subst hname
+      have hk0 : k = 0 := k_zero_of_not_padOK hk (fun h => h) rfl
+      subst hk0
+      have he0 : e2 = 0 := by
+        rcases he2 with h | ⟨_, h⟩
+        · exact h
+        · exact h.symm
+      subst he0
+      rw [List.replicate_zero, List.append_nil] at hp
+      exact rtp_fix (cxOf ps os) (cxOf ps' os') t hinv hside os os' region io rfl rfl hlen hio out hw x' inner hp hsz
+    | stp s =>
+      have := nextA_none (none_link hlink); subst this
+      exact absurd (splitRaw_single _ rfl) hpay
+    | bootp s =>
+      have := nextA_none (none_link hlink); subst this
+      exact absurd (splitRaw_single _ rfl) hpay
+    | dhcp s =>
+      have := nextA_none (none_link hlink); subst this
+      exact absurd (splitRaw_single _ rfl) hpay
+    | dhcpv6 s =>
+      have := nextA_none (none_link hlink); subst this
+      exact absurd (splitRaw_single _ rfl) hpay
   | wifi o => exact hcov.elim
   | ip o =>
     cases o with
